@@ -86,6 +86,11 @@ theorem holders_transparent (sz : Nat) (t : Ty) (v : Val) : Spec.encode (.box sz
 theorem holders_transparent_impl (sz : Nat) (t : Ty) (v : Val) : encodeTo (.box sz t) v = encodeTo t v := by
   simp [encodeTo]
 
+/-- … and so do user-defined wrapper types that implement `WrapperTypeEncode`. -/
+theorem user_wrapper_transparent (t : Ty) (v : Val) :
+    Spec.encode (.wrap t) v = Spec.encode t v ∧ encodeTo (.wrap t) v = encodeTo t v := by
+  simp [Spec.encode, encodeTo]
+
 /-- **Collection flavour and element size are invisible**: vector, deque, list, set … of the same
     elements encode alike, whatever `size_of` (hence whatever spare capacity the allocation has). -/
 theorem flavour_and_layout_invisible (k k' : SeqKind) (sz sz' : Nat) (t : Ty) (vs : List Val) :
